@@ -3,6 +3,26 @@
 //! units from the line start; a character past the line end denotes the line end.
 //! Independent of ropey.
 
+/// The unit of the `character` member of a position (LSP 3.17 `PositionEncodingKind`).
+#[derive(Debug, Clone, Copy, PartialEq, Eq)]
+pub enum Unit {
+    Utf8,
+    Utf16,
+    Utf32,
+}
+
+impl Unit {
+    /// The unit a server that announced `announced` (or nothing) uses.
+    pub fn of(announced: Option<&str>) -> Option<Unit> {
+        match announced {
+            None | Some("utf-16") => Some(Unit::Utf16),
+            Some("utf-8") => Some(Unit::Utf8),
+            Some("utf-32") => Some(Unit::Utf32),
+            Some(_) => None,
+        }
+    }
+}
+
 #[derive(Debug, Clone)]
 pub struct RefLines {
     /// (start of the line, end of its content before the terminator) in bytes
@@ -38,6 +58,18 @@ impl RefLines {
     pub fn inside_crlf(text: &str, offset: usize) -> bool {
         let b = text.as_bytes();
         offset > 0 && offset < b.len() && b[offset - 1] == b'\r' && b[offset] == b'\n'
+    }
+
+    /// (line, column in the given unit) of a byte offset on a character boundary.
+    pub fn position_in(&self, text: &str, offset: usize, unit: Unit) -> (u32, u32) {
+        let (line, _) = self.position(text, offset);
+        let (start, _) = self.lines[line as usize];
+        let col: usize = match unit {
+            Unit::Utf8 => offset - start,
+            Unit::Utf16 => text[start..offset].chars().map(|c| c.len_utf16()).sum(),
+            Unit::Utf32 => text[start..offset].chars().count(),
+        };
+        (line, col as u32)
     }
 
     /// (line, UTF-16 column) of a byte offset on a character boundary.
